@@ -6,8 +6,9 @@ from layers.fvm1d import layer_mesh1d, layer_rhs1d
 from layers.integ import layer_int
 
 MODULE = 'Flowdyn.Props.C01'
-THEOREMS = []
-PARTIAL = {}
+import core
+THEOREMS = core.theorems_in(['C01a.lean'], 'Flowdyn.C01')
+PARTIAL = {"2D": "2D balance/periodic/wall theorems pending the 2D model (checked by the sweep on the implementation)", "implicit": "conservation by the implicit family is checked by the sweep (linear-solver accuracy); theorem pending"}
 LEVEL_NOTE = "telescoping balance, periodic and wall invariance, integrator conservation proved on the model; 2D and implicit clauses: see PARTIAL"
 
 EXPL = ['explicit', 'rk2', 'rk2_heun', 'rk3_heun', 'rk3ssp', 'rk4', 'lsrk25bb', 'lsrk26bb', 'lsrk4']
